@@ -8,6 +8,7 @@ import (
 	"os"
 	"path/filepath"
 	"regexp"
+	"runtime"
 	"sort"
 	"strings"
 	"sync"
@@ -240,6 +241,12 @@ func cmdCheck(args []string) int {
 	}
 	os.RemoveAll(work)
 	quickSec, fullSec := 12, 40
+	// solver timeouts are wall-clock: on an oversubscribed machine (other checks running at the same time) they are stretched
+	// in proportion to the load, so that an obligation that needs two CPU seconds is not reported as failed
+	if lf := loadFactor(); lf > 1 {
+		quickSec = int(float64(quickSec) * lf)
+		fullSec = int(float64(fullSec) * lf)
+	}
 	all := false
 	if *tier == "thorough" {
 		quickSec, fullSec, all = 60, 60, true
@@ -624,3 +631,23 @@ func writeEvidence(id, tier string, seed int, def *PropDef, results []*FuncResul
 }
 
 var _ = sort.Strings
+
+// loadFactor: 1-minute load average divided by the number of CPUs, between 1 and 6.
+func loadFactor() float64 {
+	data, err := os.ReadFile("/proc/loadavg")
+	if err != nil {
+		return 1
+	}
+	var l1 float64
+	if _, err := fmt.Sscanf(string(data), "%f", &l1); err != nil {
+		return 1
+	}
+	f := l1 / float64(runtime.NumCPU())
+	if f < 1 {
+		return 1
+	}
+	if f > 6 {
+		return 6
+	}
+	return f
+}
